@@ -22,6 +22,7 @@ EXPLANATION = (
     "C13-R6 checks the index arithmetic of starred destructuring as linear forms; C13-R7 that a "
     "walrus on a user name is only built inside the namespace classes; C13-R8 the in-place method "
     "is tried first on every path; C09-R1 instance: pattern/value temporaries are fresh per use."
+    ' C13-R6 also: no part of the right-hand side is evaluated in a repetition that stores a target. C13-R9: destructuring checks the number of values, and the bound of an emitted check is == len(targets) or >= len(targets) - 1 with a star. C13-R10: NotImplemented from the in-place method falls back.'
 )
 ASSUMPTIONS = [
     "numeric results and CPython's type-slot lookup versus hasattr are run-time behaviour (not decided)",
